@@ -17,11 +17,15 @@ import (
 
 	"pgregory.net/rapid"
 
+	"github.com/moorara/algo/lexer"
+
+	eparser "github.com/gardenbed/emerge/internal/ebnf/parser"
 	east "github.com/gardenbed/emerge/internal/ebnf/parser/ast"
 	"github.com/gardenbed/emerge/internal/ebnf/parser/spec"
 	rast "github.com/gardenbed/emerge/internal/regex/parser/ast"
 	"github.com/gardenbed/emerge/internal/regex/parser/nfa"
 	"github.com/gardenbed/emerge/internal/vh/rec"
+	"github.com/gardenbed/emerge/internal/vh/ref"
 )
 
 const (
@@ -68,11 +72,69 @@ var specPool = []string{
 	"grammar d1;\nNUM = /[0-9]+/\nstart = expr;\nexpr = expr ( \"+\" | \"-\" ) expr | NUM;\n",
 	"grammar d2;\nstart = s;\ns = ( \"i\" s | \"i\" s \"e\" s ) | \"x\" { \"y\" \"z\" };\n",
 	"grammar d3;\nNUM = /[0-9]+/\n@left \"+\"\nstart = expr;\nexpr = expr \"+\" expr | ( \"(\" expr \")\" ) | NUM [ \"!\" \"!\" ];\n",
+	// several precedence levels each (a recycled table of levels shows in the other's result)
+	"grammar f1;\n@right \"^\"\n@left \"*\" \"/\"\n@left \"+\"\n@none \"<\"\nstart = start \"^\" start | start \"*\" start | start \"/\" start | start \"+\" start | start \"<\" start | \"n\";\n",
+	"grammar f2;\n@left \"|\"\n@right \"=\" <start = \"!\" start>\nstart = start \"|\" start | start \"=\" start | \"!\" start | \"v\";\n",
+	// complements of classes that have ASCII members, next to classes that are complements themselves
+	"grammar f3;\nNL = /\\P{L}+/\nstart = NL;\n",
+	"grammar f4;\nANY = /./\nND = /\\D\\D/\nstart = ANY | ND;\n",
+	// rejected after at least one complete rule (what a rejected specification leaves behind must not reach the next one)
+	"grammar g1;\nstart = \"x\" start | \"x\";\nq = = ;\n",
+	"grammar g2;\n@left \"y\"\nstart = start \"y\" start | \"z\";\nw = \"w\" #\n",
+	"grammar g3;\nTK = /[a-c]+/\nstart = TK { \"k\" } ;\nx = ( \"k\"",
+	// rejected for a pattern only when the automaton is asked for
+	"grammar g4;\nBAD = /[9-0]+/\nstart = BAD;\n",
+	"grammar g5;\nBAD = /a{3,1}/\nOK = /b+/\nstart = BAD OK;\n",
+}
+
+// hot names the pool specifications that are drawn more often in histories: those with precedence levels, those that
+// are rejected half-way, the large ones.
+var hot = map[string]bool{"a5": true, "b3": true, "d3": true, "f1": true, "f2": true, "a7": true, "b4": true, "g1": true, "g2": true, "g3": true, "g4": true, "g5": true, "big1": true, "big2": true, "big3": true}
+
+var nameRe = regexp.MustCompile(`^grammar ([a-z0-9]+)`)
+
+func hotItems() []int {
+	var out []int
+	for i, src := range specPool {
+		if m := nameRe.FindStringSubmatch(src); m != nil && hot[m[1]] {
+			out = append(out, i)
+		}
+	}
+	return out
+}
+
+// large specifications (longer than the reader's 4096-byte halves); bigSpecs are appended to the pool in init
+func bigSpec(name string, lines int) string {
+	for shift := 0; shift < 64; shift++ {
+		var b strings.Builder
+		fmt.Fprintf(&b, "grammar %s;%s\n", name, strings.Repeat(" ", shift))
+		for i := 0; i < lines; i++ {
+			fmt.Fprintf(&b, "// padding line %04d of %s\n", i, name)
+		}
+		fmt.Fprintf(&b, "ID = /[a-z]+/\nstart = { ID \"%s\" } x;\nx = \"b\" | ;\n", name)
+		text := b.String()
+		hazard := false
+		for _, off := range ref.NewScanner().Boundaries(text + "\n") {
+			hazard = hazard || off%4096 == 4095
+		}
+		if !hazard {
+			// outside of the class of the listed dependency finding (a lexeme that ends at the last byte of a buffer half)
+			return text
+		}
+	}
+	panic("no alignment outside of the listed class")
+}
+
+var firstBig int
+
+func init() {
+	firstBig = len(specPool)
+	specPool = append(specPool, bigSpec("big1", 260), bigSpec("big2", 200), bigSpec("big3", 200))
 }
 
 // lalrPool names the pool specifications whose LALR(1) table (or conflict report) is part of the signature; the
 // others include grammars for which the dependency's construction panics depending on iteration order (listed finding).
-var lalrPool = map[string]bool{"a5": true, "a6": true, "b3": true, "d1": true, "d2": true, "d3": true}
+var lalrPool = map[string]bool{"f1": true, "f2": true, "a5": true, "a6": true, "b3": true, "d1": true, "d2": true, "d3": true}
 
 var patternPool = []string{
 	"a", "ab|c", "[a-f]+", "[^a-f]", "[0-9][0-9]*", `\d+(\.\d+)?`, "[[:alpha:]_][[:alnum:]_]*", "(a|b)*abb", "a{2,4}", "(ab){2}c", "x?y*z+", ".", `\w+`, `[\x41-\x5A\x00E9]`,
@@ -82,11 +144,13 @@ var patternPool = []string{
 	`\x2126`, "&", `\x0141`, "A", `\x2030+`, "0+", `\x017E|x`, "~|x",
 	// ranges whose end points print alike (surrogate code points, U+FFFD)
 	`[\xD800-\xD803]+`, `[\xDC00-\xDC03]+`, `[\xD801-\xD802]`, `[\xFFFD-\xFFFE]x`, `[\xDFFE-\xDFFF]`,
+	// complements of classes with ASCII members; classes that are themselves complements relative to ASCII
+	`\P{L}`, `\P{Lu}+`, `\P{Latin}x`, `\p{L}+`, `\p{Lu}\P{Lu}`, `\D+`, `\W`, `\S+`, `[^A-Z]`, `\P{Nd}9`,
 }
 
 // probes are inputs on which every automaton of a signature is run (a printed transition table shows surrogate
 // code points and U+FFFD alike).
-var probes = [][]rune{{'a'}, {'b'}, {'.'}, {'a', 'b'}, {'a', '*', 'b'}, {'x', 'y'}, {'9'}, {'a', 'a', 'b'}, {0xE9}, {0xD800}, {0xDBFF}, {0xDC00}, {0xDFFF}, {0xE000}, {0xFFFD}, {0xFFFE}, {0xD800, 0xD801}, {0xDC00, 0xDFFF}, {0xFFFD, 'x'}, {'i', 'f'}, {'1', '.', '5'}, {'"', 'a', '"'}, {'&'}, {0x2126}, {'A'}, {0x141}, {'0'}, {0x2030}, {'~'}, {0x17E}}
+var probes = [][]rune{{'a'}, {'b'}, {'.'}, {'a', 'b'}, {'a', '*', 'b'}, {'x', 'y'}, {'9'}, {'a', 'a', 'b'}, {0xE9}, {0xD800}, {0xDBFF}, {0xDC00}, {0xDFFF}, {0xE000}, {0xFFFD}, {0xFFFE}, {0xD800, 0xD801}, {0xDC00, 0xDFFF}, {0xFFFD, 'x'}, {'i', 'f'}, {'1', '.', '5'}, {'"', 'a', '"'}, {'&'}, {0x2126}, {'A'}, {0x141}, {'0'}, {0x2030}, {'~'}, {0x17E}, {'Z'}, {'q'}, {'Q', 'x'}, {'A', 'a'}, {'-', '-'}, {'5', '9'}, {'z', 'z'}}
 
 func probeAcceptance(d *auto.DFA) string {
 	var b strings.Builder
@@ -104,26 +168,74 @@ func probeAcceptance(d *auto.DFA) string {
 	return b.String()
 }
 
-func specSignature(src string) string {
+// tokenDigest runs a parser that was created earlier and digests the tokens it yields.
+func tokenDigest(p *eparser.Parser) string { return tokenDigestWith(p, 0, nil) }
+
+// tokenDigestWith calls f when the at-th token is delivered.
+func tokenDigestWith(p *eparser.Parser, at int, f func()) string {
+	h := sha256.New()
+	n := 0
+	err := p.Parse(func(tok *lexer.Token) error {
+		fmt.Fprintf(h, "%s %q %d:%d:%d\n", tok.Terminal, tok.Lexeme, tok.Pos.Offset, tok.Pos.Line, tok.Pos.Column)
+		n++
+		if f != nil && n == at {
+			f()
+		}
+		return nil
+	}, nil)
+	if err != nil {
+		return fmt.Sprintf("tokens=%d %x error: %s", n, h.Sum(nil)[:8], posRe.ReplaceAllString(strings.SplitN(err.Error(), "\n", 2)[0], "<pos>"))
+	}
+	return fmt.Sprintf("tokens=%d %x", n, h.Sum(nil)[:8])
+}
+
+func tokensOf(src string) (line string) {
+	if g := rec.Guard(func() {
+		p, err := eparser.New("pool.ebnf", strings.NewReader(src))
+		if err != nil {
+			line = "tokens: no parser: " + err.Error()
+			return
+		}
+		line = tokenDigest(p)
+	}); g != nil {
+		line = "tokens: PANIC " + strings.SplitN(g.Error(), "\n", 2)[0]
+	}
+	return line
+}
+
+// shapeOf prints what a derived specification holds: it is printed again later in a history, when other inputs have
+// been processed, and must not have changed (the caller of emerge keeps using the object it was given).
+func shapeOf(sp *spec.Spec) string {
 	var b strings.Builder
+	fmt.Fprintf(&b, "name=%s start=%s\n", sp.Name, sp.Grammar.Start)
+	var prods []string
+	for p := range sp.Grammar.Productions.All() {
+		prods = append(prods, p.String())
+	}
+	sort.Strings(prods)
+	fmt.Fprintf(&b, "productions: %s\n", strings.Join(prods, " ; "))
+	for _, d := range sp.Definitions {
+		fmt.Fprintf(&b, "def %s=%q regex=%v\n", d.Terminal, d.Value, d.IsRegex)
+	}
+	for i, l := range sp.Precedences {
+		fmt.Fprintf(&b, "level%d %s\n", i, l)
+	}
+	return b.String()
+}
+
+func specSignature(src string) string { s, _ := specSignatureK(src); return s }
+
+// specSignatureK also returns a function that prints the derived object again (nil if there is none).
+func specSignatureK(src string) (sig string, lastKept func() string) {
+	var b strings.Builder
+	fmt.Fprintf(&b, "%s\n", tokensOf(src))
 	err := rec.Guard(func() {
 		sp, err := spec.Parse("pool.ebnf", strings.NewReader(src))
 		if err != nil {
 			fmt.Fprintf(&b, "parse-error: %s\n", posRe.ReplaceAllString(err.Error(), "<pos>"))
 		} else {
-			fmt.Fprintf(&b, "name=%s start=%s\n", sp.Name, sp.Grammar.Start)
-			var prods []string
-			for p := range sp.Grammar.Productions.All() {
-				prods = append(prods, p.String())
-			}
-			sort.Strings(prods)
-			fmt.Fprintf(&b, "productions: %s\n", strings.Join(prods, " ; "))
-			for _, d := range sp.Definitions {
-				fmt.Fprintf(&b, "def %s=%q regex=%v\n", d.Terminal, d.Value, d.IsRegex)
-			}
-			for i, l := range sp.Precedences {
-				fmt.Fprintf(&b, "level%d %s\n", i, l)
-			}
+			b.WriteString(shapeOf(sp))
+			lastKept = func() string { return shapeOf(sp) }
 			d, tm, derr := sp.DFA()
 			if derr != nil {
 				fmt.Fprintf(&b, "dfa-error: %s\n", posRe.ReplaceAllString(derr.Error(), "<pos>"))
@@ -157,10 +269,12 @@ func specSignature(src string) string {
 	if err != nil {
 		fmt.Fprintf(&b, "PANIC: %v", strings.SplitN(err.Error(), "\n", 2)[0])
 	}
-	return b.String()
+	return b.String(), lastKept
 }
 
-func patternSignature(p string) string {
+func patternSignature(p string) string { s, _ := patternSignatureK(p); return s }
+
+func patternSignatureK(p string) (sig string, lastKept func() string) {
 	var b strings.Builder
 	err := rec.Guard(func() {
 		n, err := nfa.Parse(p)
@@ -169,6 +283,7 @@ func patternSignature(p string) string {
 		} else {
 			d := n.ToDFA().Minimize().EliminateDeadStates().ReindexStates()
 			fmt.Fprintf(&b, "nfa-dfa: %s probes=%s\n", d.String(), probeAcceptance(d))
+			lastKept = func() string { return d.String() + probeAcceptance(d) }
 		}
 		a, err := rast.Parse(p)
 		if err != nil {
@@ -181,7 +296,7 @@ func patternSignature(p string) string {
 	if err != nil {
 		fmt.Fprintf(&b, "PANIC: %v", strings.SplitN(err.Error(), "\n", 2)[0])
 	}
-	return b.String()
+	return b.String(), lastKept
 }
 
 // item i: 0..len(specPool)-1 are specifications, the rest patterns
@@ -189,11 +304,13 @@ func poolSize() int { return len(specPool) + len(patternPool) }
 
 func isSpec(i int) bool { return i < len(specPool) }
 
-func process(i int) string {
+func process(i int) string { s, _ := processK(i); return s }
+
+func processK(i int) (string, func() string) {
 	if isSpec(i) {
-		return specSignature(specPool[i])
+		return specSignatureK(specPool[i])
 	}
-	return patternSignature(patternPool[i-len(specPool)])
+	return patternSignatureK(patternPool[i-len(specPool)])
 }
 
 func itemText(i int) string {
@@ -204,7 +321,7 @@ func itemText(i int) string {
 }
 
 // ruleMore describes what was added to the exploration in the build phase.
-const ruleMore = "; signatures contain a digest of the complete token automaton and, for selected pool items, the LALR(1) table or its conflict report; the pool pairs specifications in which the same text is a literal in one and a pattern in the other"
+const ruleMore = "; every result object handed out in a history (derived specification, automaton) is looked at again after each later step and must not have changed; in a quarter of the steps a parser is created, another pool item is processed, and only then the parser is run (also with two specifications longer than the reader's buffer halves); signatures contain a digest of the complete token automaton and, for selected pool items, the LALR(1) table or its conflict report; the pool pairs specifications in which the same text is a literal in one and a pattern in the other"
 
 func TestMain(m *testing.M) {
 	if w := os.Getenv("VERIF_WORKER_ITEM"); w != "" {
@@ -268,25 +385,106 @@ func isolated() ([]string, error) {
 
 type input struct {
 	Items []int `json:"items"`
+	// Inter[k] >= 0: at step k a parser for specification Items[k] is created first, then pool item Inter[k] is processed
+	// completely, and only then the parser is run (creation and use of emerge's objects interleave)
+	Inter []int `json:"inter,omitempty"`
+	// Nested[k] > 0 (with Inter[k] >= 0): pool item Inter[k] is processed inside the token callback of the parser for
+	// Items[k], when its Nested[k]-th token is delivered (a parse that starts while another one is under way)
+	Nested []int `json:"nested,omitempty"`
 }
 
-func checkHistory(items []int) error {
+type keptObject struct {
+	step, item int
+	shape      string
+	again      func() string
+}
+
+func checkHistory(items, inter, nested []int) error {
 	base, err := isolated()
 	if err != nil {
 		return fmt.Errorf("harness: %v", err)
 	}
-	for step, i := range items {
-		got := process(i)
-		if got != base[i] {
-			var prev []string
-			for _, j := range items[:step] {
+	var kept []keptObject
+	history := func(step int) string {
+		var prev []string
+		for k, j := range items[:step] {
+			if k < len(inter) && inter[k] >= 0 {
+				prev = append(prev, fmt.Sprintf("%d(with %d between creation and run)", j, inter[k]))
+			} else {
 				prev = append(prev, fmt.Sprint(j))
 			}
+		}
+		return strings.Join(prev, " ")
+	}
+	for step, i := range items {
+		if step < len(inter) && inter[step] >= 0 && isSpec(i) {
+			j := inter[step]
+			var p *eparser.Parser
+			var perr error
+			if g := rec.Guard(func() { p, perr = eparser.New("pool.ebnf", strings.NewReader(specPool[i])) }); g != nil || perr != nil {
+				return fmt.Errorf("step %d: no parser for pool item %d: %v %v", step, i, g, perr)
+			}
+			nest := 0
+			if step < len(nested) {
+				nest = nested[step]
+			}
+			var line string
+			if nest > 0 {
+				// the other item is processed while this parse is under way
+				var inner error
+				if g := rec.Guard(func() { line = tokenDigestWith(p, nest, func() {
+					if got := process(j); got != base[j] && inner == nil {
+						inner = fmt.Errorf("step %d: the result of processing pool item %d inside a token callback of the parse of item %d differs from its result in an isolated run (history [%s])\n--- item:\n%s\n--- isolated:\n%s--- in this history:\n%s", step, j, i, history(step), head(itemText(j)), base[j], got)
+					}
+				}) }); g != nil {
+					line = "tokens: PANIC " + strings.SplitN(g.Error(), "\n", 2)[0]
+				}
+				if inner != nil {
+					return inner
+				}
+			} else {
+				if got := process(j); got != base[j] {
+					return fmt.Errorf("step %d: the result of processing pool item %d, while a parser for item %d exists that has not run yet, differs from its result in an isolated run (history [%s])\n--- item:\n%s\n--- isolated:\n%s--- in this history:\n%s", step, j, i, history(step), head(itemText(j)), base[j], got)
+				}
+				if g := rec.Guard(func() { line = tokenDigest(p) }); g != nil {
+					line = "tokens: PANIC " + strings.SplitN(g.Error(), "\n", 2)[0]
+				}
+			}
+			if want := strings.SplitN(base[i], "\n", 2)[0]; line != want {
+				return fmt.Errorf("step %d: a parser for pool item %d was created, then item %d was processed, then the parser was run: it yields other tokens than in an isolated run (history [%s])\n--- item:\n%s\n--- isolated: %s\n--- here:     %s", step, i, j, history(step), head(itemText(i)), want, line)
+			}
+		}
+		got, lastKept := processK(i)
+		if got != base[i] {
 			return fmt.Errorf("step %d: the result of processing pool item %d differs from its result in an isolated run, after processing items [%s] in the same process\n--- item:\n%s\n--- isolated:\n%s--- in this history:\n%s",
-				step, i, strings.Join(prev, " "), itemText(i), base[i], got)
+				step, i, history(step), head(itemText(i)), base[i], got)
+		}
+		// results handed out earlier must still be what they were
+		for _, k := range kept {
+			var now string
+			if g := rec.Guard(func() { now = k.again() }); g != nil {
+				now = "PANIC " + g.Error()
+			}
+			if now != k.shape {
+				return fmt.Errorf("step %d: the result object that processing pool item %d returned at step %d has changed after pool item %d was processed (history [%s])\n--- item:\n%s\n--- when it was returned:\n%s--- now:\n%s", step, k.item, k.step, i, history(step+1), head(itemText(k.item)), k.shape, now)
+			}
+		}
+		if lastKept != nil {
+			f := lastKept
+			kept = append(kept, keptObject{step: step, item: i, shape: f(), again: f})
+			if len(kept) > 5 {
+				kept = kept[1:]
+			}
 		}
 	}
 	return nil
+}
+
+func head(s string) string {
+	if len(s) > 400 {
+		return s[:200] + fmt.Sprintf(" ... (%d bytes) ... ", len(s)) + s[len(s)-150:]
+	}
+	return s
 }
 
 func TestHistories(t *testing.T) {
@@ -296,6 +494,27 @@ func TestHistories(t *testing.T) {
 	}
 	rec.Check(t, 80, 4000, func(t *rapid.T) {
 		items := rapid.SliceOfN(rapid.IntRange(0, poolSize()-1), 2, 12).Draw(t, "items")
+		for k := range items {
+			if rapid.IntRange(0, 2).Draw(t, "hot") == 0 {
+				items[k] = rapid.SampledFrom(hotItems()).Draw(t, "hotItem")
+			}
+		}
+		inter := make([]int, len(items))
+		nested := make([]int, len(items))
+		interleaved := false
+		for k := range inter {
+			inter[k] = -1
+			if rapid.Bool().Draw(t, "nested") {
+				nested[k] = rapid.IntRange(1, 9).Draw(t, "atToken")
+			}
+			if isSpec(items[k]) && rapid.IntRange(0, 3).Draw(t, "interleave") == 0 {
+				inter[k] = rapid.IntRange(0, len(specPool)-1).Draw(t, "between")
+				if items[k] >= firstBig && rapid.Bool().Draw(t, "bigBetween") {
+					inter[k] = rapid.IntRange(firstBig, len(specPool)-1).Draw(t, "betweenBig")
+				}
+				interleaved = true
+			}
+		}
 		distinct := map[int]bool{}
 		failing := false
 		base, _ := isolated()
@@ -307,10 +526,58 @@ func TestHistories(t *testing.T) {
 		for _, i := range items {
 			key = append(key, fmt.Sprint(i))
 		}
-		rec.Case("h:"+strings.Join(key, ","), len(distinct) >= 3 && failing, "history")
+		cls := []string{"history"}
+		if interleaved {
+			cls = append(cls, "creation_and_run_interleaved")
+			for k := range inter {
+				key = append(key, fmt.Sprint(inter[k]), fmt.Sprint(nested[k]))
+				if inter[k] >= firstBig && items[k] >= firstBig {
+					cls = append(cls, "two_large_specifications_interleaved")
+				}
+			}
+		}
+		rec.Case("h:"+strings.Join(key, ","), len(distinct) >= 3 && failing, cls...)
 		rec.Sample("history", map[string]any{"history_of_pool_items": items, "first_item": itemText(items[0])})
-		if err := checkHistory(items); err != nil {
-			rec.Fail(t, "history", input{Items: items}, "%v", err)
+		if err := checkHistory(items, inter, nested); err != nil {
+			rec.Fail(t, "history", input{Items: items, Inter: inter, Nested: nested}, "%v", err)
+		}
+	})
+}
+
+// TestResultObjectsSurviveLaterParses: back-to-back derivations without any other work in between (a recycled
+// object is most likely handed to the very next call): what was returned for the first specification must not change.
+func TestResultObjectsSurviveLaterParses(t *testing.T) {
+	rec.Rule(rule + ruleMore)
+	parse := func(i int) (sp *spec.Spec) {
+		_ = rec.Guard(func() { sp, _ = spec.Parse("pool.ebnf", strings.NewReader(specPool[i])) })
+		return sp
+	}
+	rec.Check(t, 300, 12000, func(t *rapid.T) {
+		first := rapid.SampledFrom(hotItems()).Draw(t, "first")
+		if rapid.IntRange(0, 3).Draw(t, "any") == 0 {
+			first = rapid.IntRange(0, len(specPool)-1).Draw(t, "anyFirst")
+		}
+		n := rapid.IntRange(1, 4).Draw(t, "later")
+		later := make([]int, n)
+		for k := range later {
+			later[k] = rapid.SampledFrom(hotItems()).Draw(t, "laterHot")
+			if rapid.IntRange(0, 3).Draw(t, "anyLater") == 0 {
+				later[k] = rapid.IntRange(0, len(specPool)-1).Draw(t, "laterAny")
+			}
+		}
+		sp := parse(first)
+		rec.Case(fmt.Sprintf("keep:%d:%v", first, later), sp != nil, "result_object_kept_across_parses")
+		if sp == nil {
+			return
+		}
+		before := shapeOf(sp)
+		for round := 0; round < 3; round++ {
+			for _, j := range later {
+				parse(j)
+				if now := shapeOf(sp); now != before {
+					rec.Fail(t, "kept", map[string]any{"first": first, "later": later}, "the specification derived from pool item %d has changed after pool item %d was processed in the same process (later items %v)\n--- item:\n%s\n--- when it was returned:\n%s--- now:\n%s", first, j, later, head(itemText(first)), before, now)
+				}
+			}
 		}
 	})
 }
@@ -515,7 +782,7 @@ func TestReplay(t *testing.T) {
 	if err := json.Unmarshal(raw, &in); err != nil {
 		t.Fatal(err)
 	}
-	if err := checkHistory(in.Items); err != nil {
+	if err := checkHistory(in.Items, in.Inter, in.Nested); err != nil {
 		rec.Fail(t, "history", in, "%v", err)
 	}
 }
